@@ -85,13 +85,19 @@ def fetchCol (order : Order) (reverse : Bool) (pid : Option Int) (pageSize : Nat
   (orderBy (colOrder order reverse) (table.filter fun r => colWhere order reverse pid r.key)).take
     (effPageSize pageSize + 1)
 
+/-- `if o.query.Bottom == nil { o.query.Bottom = paginationID }`, executed on the
+    first fetched row. -/
+def firstBottom (bottom : Option Int) (ids : List Int) : Option Int :=
+  match bottom with
+  | some b => some b
+  | none => ids.head?
+
 /-- `columnPaginator.BuildCursor`. Go panics are explicit errors. -/
 def buildCursorCol {φ : Type} (q : ColQuery φ) (order : Order) (ret : List Row) :
     Except String (Page (ColQuery φ)) :=
   let ps := effPageSize q.pageSize
   let ids := ret.map (·.key)
-  -- `if o.query.Bottom == nil { o.query.Bottom = paginationID }` on the first row
-  let q : ColQuery φ := { q with bottom := match q.bottom with | some b => some b | none => ids.head? }
+  let q : ColQuery φ := { q with bottom := firstBottom q.bottom ids }
   let hasMore := decide (ret.length > ps)
   let kept := if hasMore then ret.dropLast else ret
   let data := if q.reverse then kept.reverse else kept
